@@ -354,6 +354,33 @@ def gen_bytes(rng, t):
     return d
 
 
+def xvalue_case(start, auth, tail):
+    args = "none" if auth is None else "\t".join(str(auth[k]) for k in FIELD_ORDER["auth"])
+    return Case(
+        ["enc.ipv4exts.write\t%d\t%s" % (start, args), "enc.ipv4exts.rt\t%d\t%s\t%s" % (start, args, hx(tail))],
+        {"k": "xval", "start": start, "auth": auth, "tail": hx(tail)},
+    )
+
+
+def xbytes_case(start, d):
+    h = hx(d)
+    return Case(
+        ["enc.ipv4exts.from_slice\t%d\t%s" % (start, h), "enc.ipv4exts.redec\t%d\t%s" % (start, h), "enc.ipv4extsslice.from_slice\t%d\t%s" % (start, h)],
+        {"k": "xbytes", "start": start, "data": h},
+    )
+
+
+def ref_exts_decode(start, d):
+    """expected canonical line of Ipv4Extensions::from_slice(start, d), and (fields|None, header_len) if ok"""
+    if start != 51:
+        return "ok(auth=none,next=%d,rest=(0,%d))" % (start, len(d)), (None, 0)
+    r = ref_decode("auth", d)
+    if r[0] == "err":
+        return r[1], None
+    _, f, hl = r
+    return "ok(auth=(%s),next=%d,rest=(%d,%d))" % (fields_str("auth", f), f["nh"], hl, len(d) - hl), (f, hl)
+
+
 def bytes_case(t, d):
     h = hx(d)
     return Case(
@@ -411,6 +438,18 @@ def generate(rng, tier):
         yield bytes_case("auth", bytes(d[: max(0, (ln + 2) * 4 - 1)]))
         yield bytes_case("rawext", bytes(d[: (ln + 1) * 8 + 1]))
         yield bytes_case("rawext", bytes(d[: (ln + 1) * 8 - 1]))
+    # composite Ipv4Extensions (optional authentication header selected by protocol number 51)
+    nx = 1500 if tier == "quick" else 15000
+    for i in range(nx):
+        start = rng.choice([51, 51, 51, 51, 50, 52, 0, 6, 17, 255, rng.randrange(256)])
+        auth = None if rng.random() < 0.25 else gen_value(rng, "auth", i)
+        yield xvalue_case(start, auth, rbytes(rng, rng.choice([0, 0, 1, 3, 12, 16, rng.randrange(0, 40)])))
+    for f in EXTREMES["auth"]:
+        yield xvalue_case(51, f, b"")
+        yield xvalue_case(50, f, b"\x01")
+    for i in range(nx):
+        start = rng.choice([51, 51, 51, 51, 51, 50, 52, 0, 6, 17, 255, rng.randrange(256)])
+        yield xbytes_case(start, gen_bytes(rng, "auth") if rng.random() < 0.9 else rbytes(rng, rng.randrange(0, 60)))
     for n in range(0, 1021, 4):
         yield value_case("auth", {"nh": 51, "spi": 1, "seq": 2, "icv": hx(big[:n])}, b"\x01")
     for n in range(6, 2047, 8):
@@ -605,9 +644,68 @@ def _oracle_bytes(c, out):
         out.append(("slice-eq-struct", {"problems": probs[:6], "slice": _short(o2), "struct": _short(o0)}))
 
 
+def _oracle_xvalue(c, out):
+    start, auth, tail = c.meta["start"], c.meta["auth"], unhex(c.meta["tail"])
+    o0, o1 = c.impl[0], c.impl[1]
+    if auth is not None:
+        e = wf("auth", auth)
+        if e is not None:
+            if o0 != e or o1 != e:
+                out.append(("constructor-range", {"want": e, "got": [o0, o1]}))
+            return
+    if auth is not None and start != 51:
+        want0 = "err(notreferenced(51)),len=%d,next=err(notreferenced(51))" % (12 + len(unhex(auth["icv"])))
+        if o0 != want0 or o1 != "err(notreferenced(51))":
+            out.append(("exts-not-referenced", {"got": [_short(o0), _short(o1)], "want": want0}))
+        return
+    ref = b"" if auth is None else ref_encode("auth", auth)
+    want0 = "ok(bytes=%s,len=%d,next=ok(%d))" % (hx(ref), len(ref), start if auth is None else auth["nh"])
+    if o0 != want0:
+        out.append(("rfc-encode", {"got": _short(o0), "want": _short(want0)}))
+    want1, _ = ref_exts_decode(start, ref + tail)
+    if o1 != want1:
+        out.append(("decode-encode", {"got": _short(o1), "want": _short(want1)}))
+    if (auth is None) != (start != 51):
+        return  # inconsistent value (announced header missing): no round-trip claim
+    want_rt = "ok(auth=%s,next=%d,rest=(%d,%d))" % ("none" if auth is None else "(%s)" % fields_str("auth", auth), start if auth is None else auth["nh"], len(ref), len(tail))
+    if o1 != want_rt:
+        out.append(("decode-encode", {"got": _short(o1), "want": _short(want_rt)}))
+
+
+def _oracle_xbytes(c, out):
+    start, data = c.meta["start"], unhex(c.meta["data"])
+    o0, o1, o2 = c.impl[0], c.impl[1], c.impl[2]
+    want, info = ref_exts_decode(start, data)
+    if o0 != want:
+        out.append(("rfc-decode", {"got": _short(o0), "want": _short(want)}))
+    if info is None:
+        if o1 != o0 or o2 != o0:
+            out.append(("slice-eq-struct", {"from_slice": _short(o0), "redec": _short(o1), "slice": _short(o2)}))
+        return
+    f, hl = info
+    d1 = parse_ok(o1)
+    if d1 is None or "bytes" not in d1:
+        out.append(("encode-decode", {"got": _short(o1)}))
+    else:
+        b = unhex(d1["bytes"])
+        if b != mask_reserved("auth", data[:hl]):
+            out.append(("encode-decode", {"got": _short(hx(b)), "orig": _short(hx(data[:hl]))}))
+        if d1.get("again") != o0:
+            out.append(("redecode-same", {"again": _short(d1.get("again")), "first": _short(o0)}))
+    d0 = parse_ok(o0)
+    want2 = "ok(auth=%s,empty=%d,next=%s,rest=%s,hdr=(auth=%s))" % (
+        "none" if f is None else "(0,%d)" % hl, 1 if f is None else 0, d0["next"] if d0 else "?", d0["rest"] if d0 else "?", d0["auth"] if d0 else "?")
+    if o2 != want2:
+        out.append(("slice-eq-struct", {"slice": _short(o2), "want": _short(want2)}))
+
+
 def _consistent(c):
     """the op lines must still be the ones generated from the meta data"""
     m = c.meta
+    if m.get("k") == "xval":
+        return c.lines == xvalue_case(m["start"], m["auth"], unhex(m["tail"])).lines
+    if m.get("k") == "xbytes":
+        return c.lines == xbytes_case(m["start"], unhex(m["data"])).lines
     if m.get("k") == "val":
         return c.lines == value_case(m["t"], m["f"], unhex(m["tail"])).lines
     if m.get("k") == "bytes":
@@ -628,6 +726,10 @@ def oracle(c):
             _oracle_value(c, out)
         elif c.meta.get("k") == "bytes":
             _oracle_bytes(c, out)
+        elif c.meta.get("k") == "xval":
+            _oracle_xvalue(c, out)
+        elif c.meta.get("k") == "xbytes":
+            _oracle_xbytes(c, out)
     except (ValueError, IndexError, TypeError, AttributeError, KeyError) as e:
         out.append(("malformed-impl-output", {"impl": [_short(x) for x in c.impl], "exc": repr(e)}))
     return out
